@@ -41,6 +41,7 @@ Proof.
   - inversion H; reflexivity.
   - inversion H; reflexivity.
   - destruct (s_cb s) as [cnt fault]. inversion H; reflexivity.
+  - destruct (s_evals s) as [tbl cnt]. inversion H; reflexivity.
   - inversion H; subst. destruct (s_call_params s) eqn:E; [reflexivity|].
     unfold shape; cbn. rewrite E. reflexivity.
 Qed.
@@ -237,6 +238,7 @@ Proof.
   - inversion H; subst; (left; reflexivity).
   - inversion H; subst; (left; reflexivity).
   - destruct (s_cb s) as [cnt fault]. inversion H; subst; (left; reflexivity).
+  - destruct (s_evals s) as [tbl cnt]. inversion H; subst; (left; reflexivity).
   - inversion H; subst. destruct (s_call_params s); left; reflexivity.
 Qed.
 
